@@ -249,6 +249,9 @@ func cmdCheck(args []string) int {
 		}
 		for _, f := range r.Functions {
 			nFuncs++
+			if f.CexPlan != nil {
+				cexPlans[f.Name] = f.CexPlan
+			}
 			solveS += f.SolveS
 			fe := map[string]interface{}{"function": f.Name, "unit": r.Unit, "treatment": f.Treatment, "solver_s": round3(f.SolveS), "vcgen_s": round3(f.GenS)}
 			fo, fd := 0, 0
@@ -513,8 +516,8 @@ func cmdReplay(args []string) int {
 	}
 	if cex, ok := rec["counterexample"].(map[string]interface{}); ok && cex != nil {
 		if tf, ok := cex["test_file"].(string); ok && tf != "" {
-			okr, out := runReplayTest(fmt.Sprint(cex["pkg"]), tf, fmt.Sprint(cex["run"]))
-			fmt.Printf("replaying the counterexample on the real code: reproduced=%v\n%s\n", !okr, lastLines(out, 12))
+			_, out := runReplayTest(fmt.Sprint(cex["pkg"]), tf, fmt.Sprint(cex["run"]))
+			fmt.Printf("replaying the counterexample on the real code (%s): reproduced=%v\n%s\n", repoDir(), strings.Contains(out, "DEFECT-REPRODUCED"), lastLines(out, 12))
 		}
 	}
 	return 0
